@@ -11,8 +11,15 @@ Definition all_exn : list exn :=
    MalformedIrcMsg; SyntaxError; InvalidRegistryValue; DuplicateHostmask; OtherError].
 Definition all_xc : list xc := map XE all_exn ++ [XOSError; XTimeout; XSSLTimeout; XSSLOther; XBase].
 
-Lemma all_xc_complete x : In x all_xc.
-Proof. destruct x as [e| | | | |]; [destruct e|..]; cbn; tauto. Qed.
+(* every exception has its class in the universe (XP e p has the class of XE e) *)
+Lemma all_xc_complete x : In (class_of x) all_xc.
+Proof. destruct x as [e| | | | | |e p]; [destruct e|..|destruct e]; cbn; tauto. Qed.
+
+Lemma caught_class cs x : caught cs x = caught cs (class_of x).
+Proof.
+  unfold caught. induction cs as [|c cs IH]; [reflexivity|]. cbn [existsb]. rewrite IH. f_equal.
+  unfold matches. destruct x; reflexivity.
+Qed.
 
 Definition is_base (x : xc) : bool := match x with XBase => true | _ => false end.
 
@@ -33,8 +40,13 @@ Definition entry_safe (e : log_entry) : bool :=
   let '(_, (c, (nd, na))) := e in c && N.leb nd na.
 Definition handler_logs_ok : bool := forallb entry_safe gen.T07.HANDLER_LOGS.
 
+(* utils.python.collect_extra_debug_data (run by Logger.exception inside every swallowing handler) inspects foreign
+   objects: its getattr must be under a guard that catches every Exception class, else a property of a faulty plugin
+   that raises makes the handler itself raise *)
+Definition helper_ok : bool := forallb (fun p => caught gen.T07.HELPER_GETATTR_CATCHES (XE p)) all_exn.
+
 Definition tables_ok : bool :=
-  handler_logs_ok &&
+  handler_logs_ok && helper_ok &&
   (* Irc.isChannel hands an ISUPPORT entry to ircutils.isChannel only when it is not None (repair of C07.F45): a 005
      token without value cannot make _tagMsg / takeMsg raise for every later message *)
   gen.T07.ISCHANNEL_NONE_SAFE &&
@@ -64,6 +76,8 @@ Lemma chan_safe i s : is_channel_raises i s = false.
 Proof. unfold is_channel_raises. rewrite T_safe. reflexivity. Qed.
 Lemma tag_safe i c args : tag_raises i c args = false.
 Proof. unfold tag_raises. destruct args; [reflexivity|apply chan_safe]. Qed.
+Lemma T_helper : helper_ok = true.
+Proof. vm_compute. reflexivity. Qed.
 Lemma T_logs : handler_logs_ok = true.
 Proof. vm_compute. reflexivity. Qed.
 Lemma T_take : fw_irc s_takeMsg = true.
@@ -111,16 +125,30 @@ Proof.
   apply N.ltb_ge. apply N.leb_le. exact Hn.
 Qed.
 
+(* the debug helper of Logger.exception never raises: whatever a getter of an inspected object raises is caught *)
+Lemma helper_quiet x : helper_raises x = None.
+Proof.
+  pose proof T_helper as H. unfold helper_ok in H. rewrite forallb_forall in H.
+  destruct x as [e| | | | | |e p]; [reflexivity..|]. unfold helper_raises.
+  rewrite H; [reflexivity|]. destruct p; cbn; tauto.
+Qed.
+
+(* no handler on the read path raises while handling x *)
+Lemma handler_quiet site x : handler_outcome site x = None.
+Proof. unfold handler_outcome. rewrite site_quiet, helper_quiet. destruct (mem site _); reflexivity. Qed.
+
 Lemma through_try_all site cs y : swallows_all cs = true -> through_try_at site cs y = None.
 Proof.
   intro H. destruct y as [e|]; [|reflexivity]. cbn [through_try_at].
-  unfold swallows_all in H. rewrite forallb_forall in H. rewrite (H e (all_xc_complete e)), site_quiet. reflexivity.
+  unfold swallows_all in H. rewrite forallb_forall in H.
+  rewrite caught_class, (H _ (all_xc_complete e)), handler_quiet. reflexivity.
 Qed.
 
 Lemma fw_catches_nonbase x : fw_total = true -> is_base x = false -> caught gen.T07.FIREWALL_CATCHES x = true.
 Proof.
   intros H Hb. unfold fw_total in H. rewrite forallb_forall in H.
-  specialize (H x (all_xc_complete x)). rewrite Hb in H. exact H.
+  specialize (H _ (all_xc_complete x)). rewrite caught_class.
+  destruct x; cbn [class_of is_base] in *; try discriminate; exact H.
 Qed.
 
 Definition exc_ok (y : option xc) : Prop := y <> Some XBase.
@@ -128,7 +156,7 @@ Definition exc_ok (y : option xc) : Prop := y <> Some XBase.
 Lemma through_fw_ok y : exc_ok y -> through_fw true y = None.
 Proof.
   intro H. destruct y as [e|]; [|reflexivity]. cbn [through_fw through_try_at].
-  rewrite fw_catches_nonbase; [rewrite site_quiet; reflexivity|exact T_fw|].
+  rewrite fw_catches_nonbase; [rewrite handler_quiet; reflexivity|exact T_fw|].
   destruct e; try reflexivity. exfalso. apply H. reflexivity.
 Qed.
 
